@@ -280,6 +280,8 @@ def py_len(ex, v, st):
         n = ex.W.nwords(zs)
         st.assume(n >= 0)
         return SInt(n)
+    if isinstance(v, Rec) and v.kind == 'istack':
+        return SInt(st.objs[v.oid]['len'])
     if isinstance(v, Sym):
         h = getattr(ex, 'len_of', None)
         if h:
